@@ -68,6 +68,18 @@ class Spec:
     def monitors(self, case):
         return []
 
+    def kf_cases(self, tier):
+        """Fixed cases, one per known finding of this property, so that every run of the check exercises
+        (and reports) each finding deterministically."""
+        return []
+
+    def get_case(self, seed, tier):
+        kf = self.kf_cases(tier)
+        i = seed % 1000003
+        if i < len(kf):
+            return dict(kf[i], seed=seed, rand_seed=kf[i].get('rand_seed', 12345), tape=[])
+        return self.make_case(seed, tier)
+
     def execute(self, case):
         from .runner import run_case
         return run_case(case, monitors=self.monitors(case))
